@@ -61,9 +61,21 @@ func (n *Node) At(path []string) *Node {
 	return cur
 }
 
+// KeepOperand makes the oracle merge operator return its existingValue
+// argument unchanged.
+const KeepOperand = "="
+
 // MergeFold is the oracle's order- and structure-sensitive merge:
 // existing' = "(" + render(existing) + "|" + operand + ")".
 func MergeFold(existing []byte, operand []byte) []byte {
+	if string(operand) == KeepOperand {
+		// the "keep" operand returns the existing value itself (the very
+		// slice it was handed), as e.g. a max() operator does
+		if existing == nil {
+			return []byte{}
+		}
+		return existing
+	}
 	var b bytes.Buffer
 	b.WriteByte('(')
 	if existing == nil {
